@@ -363,7 +363,60 @@ def group_fields(ctx, rep, rule: str) -> None:
     rep.ob(rule, "state-loaded-in-place-from-unflattened", ok, ld.loc(upd[0]) if upd else ld.loc(), "load updates self.state[param] in place from unflatten(saved state)")
 
 
+MUTATORS = ("append", "extend", "insert", "update", "setdefault", "pop", "popitem", "clear", "add", "remove", "discard", "__setitem__")
+
+
+def save_reads_live_state(ctx, rep, rule: str) -> None:
+    """A checkpoint describes the optimizer *now*: the saving entry points may not carry anything from one call to the
+    next.  The only channels inside the class are instance / class attributes and memoising decorators, so: no save
+    routine (nor a helper of the class it calls) stores into an attribute of `self` that a save routine also reads, and
+    none is wrapped in a cache decorator."""
+    repo = ctx.repo
+    pts = ctx.engine("pts")
+    roots = [repo.method(DS, n) for n in ("distributed_state_dict", "state_dict") if repo.lookup_method(repo.cls(DS), n) is not None and repo.lookup_method(repo.cls(DS), n).qual.startswith(DS.split(":")[0])]
+    rep.floor(rule, "save entry points of the optimizer", len(roots), 1)
+    seen, todo = {}, list(roots)
+    while todo:
+        fi = todo.pop()
+        if fi.qual in seen:
+            continue
+        seen[fi.qual] = fi
+        for c in A.calls(fi.node):
+            for q in pts.callees(fi.qual, c):
+                g = repo.funcs.get(q)
+                if g is not None and g.qual.split(".")[0] == fi.qual.split(".")[0] and g.name not in ("__init__",):
+                    todo.append(g)
+    def root_attr(e):
+        while isinstance(e, (ast.Subscript, ast.Attribute)):
+            if isinstance(e, ast.Attribute) and isinstance(e.value, ast.Name) and e.value.id == "self":
+                return e.attr
+            e = e.value
+        return None
+    for fi in seen.values():
+        written, read = {}, set()
+        for n in ast.walk(fi.node):
+            if isinstance(n, (ast.Assign, ast.AugAssign, ast.AnnAssign)):
+                for t in (n.targets if isinstance(n, ast.Assign) else [n.target]):
+                    for t1 in (t.elts if isinstance(t, (ast.Tuple, ast.List)) else [t]):
+                        a = root_attr(t1)
+                        if a is not None:
+                            written.setdefault(a, n)
+            elif isinstance(n, ast.Call) and isinstance(n.func, ast.Attribute) and n.func.attr in MUTATORS:
+                a = root_attr(n.func.value)
+                if a is not None:
+                    written.setdefault(a, n)
+            elif isinstance(n, ast.Attribute) and isinstance(n.ctx, ast.Load) and isinstance(n.value, ast.Name) and n.value.id == "self":
+                read.add(n.attr)
+        allread = set().union(*[{x.attr for x in ast.walk(g.node) if isinstance(x, ast.Attribute) and isinstance(x.ctx, ast.Load) and isinstance(x.value, ast.Name) and x.value.id == "self"} for g in seen.values()])
+        carried = sorted(a for a in written if a in allread)
+        rep.ob(rule, f"save-carries-nothing-between-calls:{fi.name}", not carried, fi.loc(written[carried[0]]) if carried else fi.loc(), f"`{fi.name}` is on the save path; attributes of self it stores into and the save path reads back: {carried or 'none'}" + (" — a later checkpoint would contain what an earlier call recorded, not the live value" if carried else ""), sample=True)
+        cached = [d for d in fi.decorators if d.split(".")[-1] in ("cache", "lru_cache", "cached_property")] if hasattr(fi, "decorators") else []
+        rep.ob(rule, f"save-not-memoised:{fi.name}", not cached, fi.loc(), f"decorators of `{fi.name}`: {getattr(fi, 'decorators', [])}")
+
+
 def run(ctx, rep) -> None:
+    rep.rule("C09.7", "a checkpoint is computed from the live optimizer at the time of the call: the save path keeps no memo on the instance (nothing it stores into self is read back by a later save) and is not wrapped in a cache")
+    rep.attempt("save_reads_live_state", save_reads_live_state, ctx, rep, "C09.7")
     rep.rule("C09.1", "everything carried across steps is optimizer state or a listed derived cache; in-place writes on the step path hit saved state only")
     rep.rule("C09.2", "every allocated state tensor is stored under self.state, and the tensors the steps work on are those very tensors (no possibly-copying conversion in between); the step counter is registered per group inside the group loop")
     rep.rule("C09.3", "load path: missing keys raise, loops over the current state are not left early, silent skips are reported")
